@@ -86,6 +86,7 @@ type lit struct {
 	v   ssa.Value
 	pol bool
 	via *ssa.Call // non-nil: imported from inside the boolean helper called here (predicate look-through)
+	inl bool      // the helper is a function literal called in place: inline code, visible like the caller's own facts
 }
 
 type clause []lit // disjunction
@@ -263,7 +264,7 @@ func (c *Ctx) visible(cls []clause) []clause {
 	for _, cl := range cls {
 		own := true
 		for _, l := range cl {
-			if l.via != nil {
+			if l.via != nil && !l.inl {
 				own = false
 			}
 		}
@@ -328,6 +329,18 @@ func (c *Ctx) litFacts(fi *fnInfo, v ssa.Value, pol bool, depth int) []clause {
 // can treat the call itself as transparent.
 func (c *Ctx) predFacts(call *ssa.Call, pol bool, depth int) ([]clause, bool) {
 	f := call.Call.StaticCallee()
+	// a function literal called where it is made (the shape an inlined helper with several returns
+	// takes) is inline code: its facts are the caller's own
+	inPlace := false
+	if f == nil {
+		if mc, isMC := call.Call.Value.(*ssa.MakeClosure); isMC {
+			if lf, isF := mc.Fn.(*ssa.Function); isF && lf.Parent() == call.Parent() {
+				f, inPlace = lf, true
+			}
+		}
+	} else if f.Parent() != nil && f.Parent() == call.Parent() {
+		inPlace = true
+	}
 	if f == nil || !c.inModule(f) || f.Blocks == nil || f.Signature.Results().Len() != 1 {
 		return nil, false
 	}
@@ -372,6 +385,7 @@ func (c *Ctx) predFacts(call *ssa.Call, pol bool, depth int) ([]clause, bool) {
 		for i, l := range cl {
 			if l.via == nil {
 				l.via = call
+				l.inl = inPlace
 			}
 			ncl[i] = l
 		}
@@ -1177,7 +1191,21 @@ func sameVar(a, b ssa.Value) bool {
 		return true
 	}
 	va, vb := varOf(a), varOf(b)
-	return va != nil && va == vb
+	if va != nil && va == vb {
+		return true
+	}
+	// loads of the same captured variable inside a function literal, or a captured variable and the
+	// value it was given once in the enclosing function
+	ua, okA := a.(*ssa.UnOp)
+	ub, okB := b.(*ssa.UnOp)
+	if okA && okB && ua.Op == token.MUL && ub.Op == token.MUL {
+		if fa, isFA := ua.X.(*ssa.FreeVar); isFA && ua.X == ub.X {
+			_ = fa
+			return true
+		}
+	}
+	sa, sb := stripConv(a), stripConv(b)
+	return sa == sb && sa != nil
 }
 
 // storedTo: the call's result is stored into variable cell al.
